@@ -15,7 +15,9 @@ META = {
         "setter x thread-safe class x {root,nested} x buffering mode: the set of held locks is empty at the normal AND at the exceptional exit - exhaustive over all paths. "
         "(b) the suspend / buffering counters are balanced at both exits. (c) lock-order graph: an edge A->B for every acquisition of B while A is held, collected over all "
         "contexts; a cycle between lock kinds is a potential deadlock and the minority direction's sites are reported (may-analysis). (d) the per-class lock table only grows: no "
-        "pop/del/rebinding of entries outside class initialisation (other objects bound to the old key keep working). Liveness in general is NOT decided."
+        "pop/del/rebinding of entries outside class initialisation (other objects bound to the old key keep working); (e) a lock is added to the table, and the test that it is missing is made, "
+        "under the class lock. (c') two locks of the same kind: no collection lock is acquired while the collection lock of ANOTHER tree is held unless a class-wide lock taken first serialises both "
+        "threads; and, because mutators read their argument under their own collection lock, no read path acquires a collection lock (a.update(b) || b.update(a)). Liveness in general is NOT decided."
     ),
     "rule": "contexts = thread-safe class x (mutators + readers + property setters) x {root,nested} x mode; non-trivial = acquires a lock",
     "trusted_base": ["engine CFG incl. exception edges and with/try/finally lowering", "lock-table lookups do not raise (guaranteed by C10.d itself)"],
@@ -233,7 +235,25 @@ def check_table_writes_locked(A, rep):
             tables = b.lock_tables()
             for n in live(g):
                 if n.kind == "cs_write" and n["name"] in tables and n["op"] == "setitem":
-                    if all("cls" in held_ids(s_) for s_ in st.get(n.id, [()])):
+                    # the test that decides to create the lock must be made under the class lock as well
+                    # (double-checked creation without the re-check lets a second thread replace a lock in use)
+                    tests = [t for t in live(g) if t.kind == "branch" and any(x.kind == "cattr" and x.args[1] in tables for x in t["cond"].walk())]
+                    locked_t = [t.id for t in tests if all("cls" in held_ids(s_) for s_ in st.get(t.id, [()]))]
+                    racy = None
+                    for t in tests:
+                        if t.id in locked_t:
+                            continue
+                        w_ = g.path(t.id, [n.id], avoid=locked_t)
+                        if w_:
+                            racy = (t, w_)
+                            break
+                    if racy is not None:
+                        t, w_ = racy
+                        rep.fail("C10.e", norm_key("C10.e", n.func, "unlocked-test"),
+                                 f"{n.func}: `{t.stmt}` decides without the class lock that the resource has no lock yet, and `{n.stmt}` then installs one without re-checking: a thread that lost the race replaces a lock "
+                                 "another thread already holds - that thread releases the wrong lock, the old one is never released and its waiters block forever",
+                                 g.witness(w_), g.label)
+                    elif all("cls" in held_ids(s_) for s_ in st.get(n.id, [()])):
                         rep.ok("C10.e", f"C10.e {g.label}: `{n.stmt}` adds the lock under the class lock")
                     else:
                         rep.fail("C10.e", norm_key("C10.e", n.func, n.stmt),
